@@ -571,8 +571,12 @@ class Parser:
 
     def parse_type_and_quals(self, cdecl):
         ast, macros = self._parse('void __dummy(\n%s\n);' % cdecl)[:2]
-        assert not macros
-        exprnode = ast.ext[-1].type.args.params[0]
+        if macros:
+            raise CDefError("'#define' is not allowed in a type string")
+        args = ast.ext[-1].type.args if ast.ext else None
+        if args is None or len(args.params) != 1:
+            raise CDefError("expected a single C type, got %r" % (cdecl,))
+        exprnode = args.params[0]
         if isinstance(exprnode, pycparser.c_ast.ID):
             raise CDefError("unknown identifier '%s'" % (exprnode.name,))
         return self._get_type_and_quals(exprnode.type)
